@@ -453,3 +453,96 @@ func famProbe(g *genctx, v int) *scen {
 	}
 	return s
 }
+
+// F-deep-break: an if-branch (or loop body) that ends in a `while.label true`
+// loop whose only exits are labelled breaks out of an inner loop. The branch
+// does fall through (via those breaks), so its facts take part in the
+// reconciliation after the if and a loop invariant must be re-proven at the
+// end of an enclosing body.
+func init() {
+	allFamilies = append(allFamilies, family{"F-deep-break", 4, famDeepBreak})
+}
+
+func famDeepBreak(g *genctx, v int) *scen {
+	m, hits := g.n("find"), g.n("hits")
+	// i = j can be up to 63: the fact i == 0 of the other branch (v < 2), or the
+	// invariant i < 8 (v >= 2), must not be taken to hold afterwards. The safe
+	// forms (v == 0, 2) guard the use again / keep the invariant.
+	assign := "i = j"
+	use := fmt.Sprintf("this.%s[i] ~sat+= 1", hits)
+	if v == 0 {
+		use = fmt.Sprintf("if i < 8 {\n        this.%s[i] ~sat+= 1\n    }", hits)
+	}
+	if v == 2 {
+		assign = "i = j & 7\n                        assert i < 8 via \"(a & b) < c: b < c\"(b: 7)"
+	}
+	var body string
+	if v < 2 {
+		body = fmt.Sprintf(`    if args.enable {
+        while.rows true {
+            while j < 64,
+                    inv true,
+            {
+                if (j as base.u64) < args.hay.length() {
+                    if args.hay[j as base.u64] >= args.lo {
+                        %s
+                        break.rows
+                    }
+                }
+                j += 1
+            }
+            n ~mod+= 1
+            if n > 3 {
+                return 0
+            }
+            j = 0
+        }.rows
+    } else {
+        this.%s[7] = 9
+    }
+    %s
+    return i`, assign, hits, use)
+	} else {
+		// the same loop as the last statement of an outer loop body with an invariant on i
+		body = fmt.Sprintf(`    while n < 3,
+            inv i < 8,
+    {
+        n += 1
+        j = 0
+        while.rows true {
+            while j < 64,
+                    inv true,
+            {
+                if (j as base.u64) < args.hay.length() {
+                    if args.hay[j as base.u64] >= args.lo {
+                        %s
+                        break.rows
+                    }
+                }
+                j += 1
+            }
+            return 0
+        }.rows
+    }
+    %s
+    return i`, assign, use)
+	}
+	s := &scen{features: []string{"labelled-break-only-loop", "if-reconcile", "terminates"}}
+	s.fields = []string{hits + " : array[8] base.u8"}
+	s.methods = []string{fmt.Sprintf("pub func obj.%s!(hay: roslice base.u8, lo: base.u8, enable: base.bool) base.u32 {\n    var i : base.u32\n    var j : base.u32\n    var n : base.u32\n%s\n}", m, body)}
+	s.drive = func(r *rand.Rand) []Call {
+		var out []Call
+		for i := 0; i < 10; i++ {
+			hay := make([]byte, 10+r.Intn(50))
+			pos := r.Intn(len(hay))
+			hay[pos] = 200
+			en := uint64(1)
+			if i%4 == 3 {
+				en = 0
+			}
+			out = append(out, Call{Method: m, Args: []Arg{{Kind: "slice", Slice: hay}, iarg(100), {Kind: "bool", Int: en}}})
+		}
+		return out
+	}
+	return s
+}
